@@ -14,11 +14,15 @@ tvars == <<s, i, failed, call>>
 
 Q == 2
 IsFin(v) == -2000000000 <= v /\ v <= 2000000000
-NoCall == [cfg |-> [alg |-> "tucker", cap |-> 0, tol |-> FALSE, cb |-> FALSE, cbstops |-> FALSE, signed |-> FALSE],
-           errs |-> <<>>, below |-> <<>>, n_errs |-> -1, n_cb |-> 0, cb_true_at |-> -1]
+NoCall == [cfg |-> [alg |-> "tucker", cap |-> 0, tol |-> FALSE, cb |-> FALSE, cbstops |-> FALSE, signed |-> FALSE, maxstag |-> 0],
+           errs |-> <<>>, below |-> <<>>, n_errs |-> -1, n_cb |-> 0, cb_true_at |-> -1, improved |-> <<>>]
 
 ErrAt(k) == IF k >= 0 /\ k + 1 <= Len(call.errs) THEN call.errs[k + 1] ELSE 0
 BelowAt(k) == k >= 1 /\ k <= Len(call.below) /\ call.below[k]
+\* (randomised_parafac) whether the error of sweep k improved on the running minimum: a floating-point comparison, from the harness
+ImprovedAt(k) == k + 1 <= Len(call.improved) /\ call.improved[k + 1]
+RuleHeld(x) == BelowAt(x.it) \/ Stagnated(x)
+ErrFam == TuckerFamily \cup {Rand}
 
 \* the rest of a sweep whose line (if any) is out: callback that does not stop, stopping rule that does not fire
 Pass(x) ==
@@ -28,23 +32,30 @@ Pass(x) ==
     IN  [st |-> c,
          bad |-> IF x.pc = "print" /\ PrintDue(x) THEN "MissingLine"
                  ELSE IF a.pc = "cb" /\ a.it = call.cb_true_at THEN "CallbackStopIgnored"      \* it returned True after this sweep
-                 ELSE IF b.pc = "tol" /\ RuleOn(b) /\ Len(b.errs) >= 2 /\ BelowAt(b.it) THEN "MissedConvergence"
+                 ELSE IF b.pc = "tol" /\ RuleOn(b) /\ Len(b.errs) >= 2 /\ RuleHeld(b) THEN "MissedConvergence"
                  ELSE "ok"]
-SweepTo(x) == RecF(SweepF(StartF(x), 0), ErrAt(x.it + 1))
+\* the sweep up to its callback, if the callback comes first (randomised_parafac) ...
+SweepHead(x) == SweepF(StartF(x), 0)
+StopDue(z) == z.pc = "cb" /\ CbFirst(z.c.alg) /\ z.it = call.cb_true_at
+\* ... and on to the point where its line is due
+SweepTail(z) == RecFI(IF z.pc = "cb" THEN CbF(z, FALSE) ELSE z, ErrAt(z.it), ImprovedAt(z.it))
 \* up to the next sweep that owes a line, or to the top of the loop with the budget used up
 RECURSIVE Adv(_, _)
 Adv(x, n) ==
     LET p == Pass(x) IN
     IF p.bad # "ok" \/ n = 0 \/ ~StartOK(p.st) THEN p
-    ELSE LET z == SweepTo(p.st) IN
-         IF PrintDue(z) THEN [st |-> z, bad |-> "ok"] ELSE Adv(z, n - 1)
+    ELSE LET h == SweepHead(p.st) IN
+         IF StopDue(h) THEN [st |-> h, bad |-> "ok"]           \* the callback returns True here: the run must end
+         ELSE LET z == SweepTail(h) IN
+              IF PrintDue(z) THEN [st |-> z, bad |-> "ok"] ELSE Adv(z, n - 1)
 
 LineVerdict(e, fam) ==
     IF s.pc = "done" THEN "LineAfterExit"
     ELSE LET a == Adv(s, s.c.cap + 1) IN
          IF a.bad # "ok" THEN a.bad
          ELSE LET y == a.st IN
-              IF ~(y.pc = "print" /\ PrintDue(y)) THEN "LineNotEnabled"
+              IF StopDue(y) THEN "CallbackStopIgnored"
+              ELSE IF ~(y.pc = "print" /\ PrintDue(y)) THEN "LineNotEnabled"
               ELSE IF ~(y.c.alg \in fam) THEN "LineKind"
               ELSE IF fam = CPFamily /\ e.ev = "Err0" /\ y.it # 0 THEN "ErrorLineKind"
               ELSE IF fam = CPFamily /\ e.ev = "ErrK" /\ ~(y.it >= 1 /\ e.k = y.it) THEN "ErrorLineKind"
@@ -54,7 +65,7 @@ LineVerdict(e, fam) ==
               ELSE IF fam = RingFamily /\ ~e.has_e THEN "ok"
               ELSE IF ~IsFin(e.e) THEN "ErrorNotFinite"
               ELSE IF ~(e.e - ErrAt(y.it) \in -Q..Q) THEN "PrintedErrorIsNotTheRecordedOne"
-              ELSE IF (fam = TuckerFamily \/ (fam = RingFamily /\ e.has_d) \/ (fam = CPFamily /\ e.ev = "ErrK")) /\ ~(IsFin(e.d) /\ e.d - (ErrAt(y.it - 1) - ErrAt(y.it)) \in -(2 * Q)..(2 * Q))
+              ELSE IF (fam = ErrFam \/ (fam = RingFamily /\ e.has_d) \/ (fam = CPFamily /\ e.ev = "ErrK")) /\ ~(IsFin(e.d) /\ e.d - (ErrAt(y.it - 1) - ErrAt(y.it)) \in -(2 * Q)..(2 * Q))
                    THEN "PrintedDecrease"
               ELSE "ok"
 
@@ -64,19 +75,21 @@ LenOK(x) == (RecordOn(x.c) /\ call.n_errs >= 0) => call.n_errs = Len(x.errs)
 CbCountOK(x) == call.n_cb = x.ncb
 
 Verdict(e) ==
-    IF e.ev = "Err" THEN LineVerdict(e, TuckerFamily)
+    IF e.ev = "Err" THEN LineVerdict(e, ErrFam)
     ELSE IF e.ev = "Iter" THEN LineVerdict(e, RingFamily)
     ELSE IF e.ev \in {"Err0", "ErrK"} THEN LineVerdict(e, CPFamily)
     ELSE IF e.ev = "CbExit" THEN
-        IF ~(s.pc = "cb" /\ CbOK(s, TRUE)) THEN "CallbackExitNotEnabled"
-        ELSE IF s.it # call.cb_true_at THEN "CallbackExitWithoutTrue"
+        LET a == IF CbFirst(s.c.alg) /\ s.pc # "done" THEN Adv(s, s.c.cap + 1) ELSE [st |-> s, bad |-> "ok"] IN
+        IF a.bad # "ok" THEN a.bad
+        ELSE IF ~(a.st.pc = "cb" /\ CbOK(a.st, TRUE)) THEN "CallbackExitNotEnabled"
+        ELSE IF a.st.it # call.cb_true_at THEN "CallbackExitWithoutTrue"
         ELSE "ok"
     ELSE IF e.ev = "Conv" THEN
         LET x == AfterCb(s) IN
         IF ~(x.pc = "tol" /\ TolOK(x, TRUE)) THEN "ConvergenceNotEnabled"
-        ELSE IF ~(e.fam = (IF x.c.alg \in TuckerFamily THEN "tucker" ELSE IF x.c.alg \in RingFamily THEN "ring" ELSE "cp")) THEN "LineKind"
+        ELSE IF ~(e.fam = (IF x.c.alg \in ErrFam THEN "tucker" ELSE IF x.c.alg \in RingFamily THEN "ring" ELSE "cp")) THEN "LineKind"
         ELSE IF e.k # x.it THEN "IterationNumber"
-        ELSE IF ~BelowAt(x.it) THEN "ConvergedWithoutMeetingTheRule"
+        ELSE IF ~RuleHeld(x) THEN "ConvergedWithoutMeetingTheRule"
         ELSE "ok"
     ELSE IF e.ev = "Return" THEN
         IF s.pc = "done" THEN (IF ~LenOK(s) THEN "ErrorListLength" ELSE IF ~CbCountOK(s) THEN "CallbackCalls" ELSE "ok")
@@ -84,6 +97,7 @@ Verdict(e) ==
         ELSE IF FeasOK(s) THEN (IF ~LenOK(s) THEN "ErrorListLength" ELSE "ok")
         ELSE LET a == Adv(s, s.c.cap + 1) IN
              IF a.bad # "ok" THEN a.bad
+             ELSE IF StopDue(a.st) THEN "CallbackStopIgnored"
              ELSE IF a.st.pc = "print" THEN "MissingLine"
              ELSE IF ~CapOK(a.st) THEN "ReturnedBeforeBudgetOrStop"
              ELSE IF ~LenOK(a.st) THEN "ErrorListLength"
@@ -94,12 +108,12 @@ Verdict(e) ==
 
 StepTo(e) ==
     CASE e.ev \in {"Err", "Iter", "Err0", "ErrK"} -> PrintF(Adv(s, s.c.cap + 1).st)
-      [] e.ev = "CbExit" -> CbF(s, TRUE)
+      [] e.ev = "CbExit" -> CbF(IF CbFirst(s.c.alg) THEN Adv(s, s.c.cap + 1).st ELSE s, TRUE)
       [] e.ev = "Conv" -> TolF(AfterCb(s), TRUE)
       [] e.ev = "Return" -> IF s.pc = "done" THEN s ELSE IF FeasOK(s) THEN FeasF(s) ELSE CapF(Adv(s, s.c.cap + 1).st)
 
 ValidCfg(c) == /\ c.alg \in Algs /\ c.cap \in 0..400 /\ c.tol \in BOOLEAN /\ c.cb \in BOOLEAN /\ c.cbstops \in BOOLEAN
-               /\ c.signed \in BOOLEAN /\ FamilyOK(c)
+               /\ c.signed \in BOOLEAN /\ c.maxstag \in 0..100 /\ FamilyOK(c)
 
 TraceInit == /\ s = InitS(NoCall.cfg, 0) /\ i = 1 /\ failed = FALSE /\ call = NoCall
 
@@ -126,5 +140,6 @@ TraceBudget == failed \/ Budget
 TraceMinSweeps == failed \/ MinSweeps
 TraceZeroBudget == failed \/ ZeroBudget
 TraceCbCalls == failed \/ CbCalls
+TraceStagLaw == failed \/ (s.c.alg = Rand /\ RecordOn(s.c)) => s.stag <= Len(s.errs)
 TraceAccepted == TLCGet("stats").diameter - 1 = Len(Events)
 =============================================================================
